@@ -940,3 +940,49 @@ pub fn lzma2_uncompressed_truncated_payload() {
 pub fn lzma2_missing_end_byte() {
     uncompressed_chunks::<1, 3, 1, 1, 1>()
 }
+
+
+//@ harness props=C17,C02,C11 tier=quick unwind=8 unwindset=default_read_exact:4,lzma2_parse_lzma_take_limit:42 mem_gb=8 timeout=900 native=no
+//@ bound: parse_lzma directly with DecoderState::process scripted (records how many payload bytes it can see): symbolic control low bits, symbolic 16-bit compressed-size field, 40 bytes available: the payload reader is limited to exactly be16 + 1 bytes
+#[cfg_attr(kani, kani::proof)]
+#[cfg_attr(kani, kani::stub(std::fmt::format, crate::verif_common::stub_format))]
+#[cfg_attr(kani, kani::stub(std::io::Error::is_interrupted, crate::verif_common::stub_not_interrupted))]
+#[cfg_attr(kani, kani::stub(crate::decode::lzma::DecoderState::process, crate::decode::lzma::DecoderState::scripted_process))]
+#[cfg_attr(kani, kani::stub(crate::decode::lzma::DecoderState::reset_state, crate::decode::lzma2::verif_h::observing_reset_state))]
+pub fn lzma2_parse_lzma_take_limit() {
+    use std::sync::atomic::Ordering::Relaxed;
+    let mut t = Tape::<64>::new();
+    let hi5 = t.u8() & 0x1F;
+    let packed = t.u16();
+    let body: [u8; 40] = t.bytes::<40>();
+    let status = 0x80u8 | hi5; // class 0
+    let mut f = [0u8; 44];
+    f[2] = (packed >> 8) as u8;
+    f[3] = packed as u8;
+    let mut i = 0;
+    while i < 40 {
+        f[4 + i] = body[i];
+        i += 1;
+    }
+    crate::decode::lzma::verif_h::PR_CALLS.store(0, Relaxed);
+    crate::decode::lzma::verif_h::PR_LEN.store(usize::MAX, Relaxed);
+    let mut dec = mk_decoder([script(1, K_LIT); 4]);
+    let mut rd = ArrReader::<44>::new(f, 44);
+    let mut sink = RecSink::<4>::new();
+    let mut accum = crate::decode::lzbuffer::verif_h::accum_from_stream_with_capacity(&mut sink, usize::MAX);
+    let r = dec.parse_lzma(&mut accum, &mut rd, status);
+    let ok = r.is_ok();
+    forget(r);
+    let declared = packed as usize + 1;
+    if declared >= 5 {
+        vassert!(ok, "lzma2: the chunk is handed to the decoder once the five preamble bytes are inside the declared size");
+        let visible = crate::decode::lzma::verif_h::PR_LEN.load(Relaxed);
+        let want = if declared - 5 < 35 { declared - 5 } else { 35 };
+        vassert!(visible == want, "lzma2: the compressed payload reader is limited to exactly the declared compressed size (be16 + 1), whatever the control byte's size bits");
+    } else {
+        vassert!(!ok, "lzma2: a declared compressed size shorter than the coder preamble is rejected");
+    }
+    vcover!(hi5 == 0x1F && declared == 10, "high_bits_do_not_leak_into_packed_size");
+    forget(accum);
+    forget(dec);
+}
